@@ -274,6 +274,14 @@ func (s *State) rangeOfD(e *Expr, depth int) ISet {
 			}
 		}
 	case "len":
+		if isCallNamed(e.Args[0], "netip.Addr.AsSlice") && len(e.Args[0].Args) == 1 {
+			// library summary: AsSlice has length 4 for Is4 addresses, else 0 or 16
+			r = r.Intersect(isConst(0).Union(isConst(4)).Union(isConst(16)))
+			is4 := s.evalBoolD(mkCall("netip.Addr.Is4", types.Typ[types.Bool], e.Args[0].Args[0]), depth+1)
+			if c, ok := is4.IsConst(); ok && c == 1 {
+				r = isConst(4)
+			}
+		}
 		// len of a slice term: hi-lo
 		if depth < 4 {
 			l := s.linOf(e)
@@ -1072,6 +1080,7 @@ func (s *State) escape(root *Expr, forget bool) {
 // join merges o into s (same partition). It reports whether s changed.
 func (s *State) join(o *State, widen bool, joinTok string) bool {
 	changed := false
+	keep := map[string]bool{}
 	for v, e := range s.env {
 		oe, ok := o.env[v]
 		if ok && oe.Key == e.Key {
@@ -1088,6 +1097,7 @@ func (s *State) join(o *State, widen bool, joinTok string) bool {
 			for k, r := range tmp.rng {
 				if cur, has := s.rng[k]; has {
 					s.rng[k] = cur.Union(r)
+					keep[k] = true
 				}
 			}
 			for k := range s.rng {
@@ -1107,6 +1117,7 @@ func (s *State) join(o *State, widen bool, joinTok string) bool {
 				}
 			}
 			s.env[v] = leaf
+			keep["T:"+leaf.Key] = true
 			changed = true
 			continue
 		}
@@ -1121,6 +1132,9 @@ func (s *State) join(o *State, widen bool, joinTok string) bool {
 		changed = true
 	}
 	for k, r := range s.rng {
+		if keep[k] {
+			continue
+		}
 		or, ok := o.rng[k]
 		if !ok {
 			delete(s.rng, k)
@@ -1202,6 +1216,9 @@ func (s *State) join(o *State, widen bool, joinTok string) bool {
 		}
 	}
 	for k, t := range s.types {
+		if keep["T:"+k] {
+			continue
+		}
 		ot, ok := o.types[k]
 		if !ok {
 			delete(s.types, k)
